@@ -215,6 +215,19 @@ func buildHost(s string) interface{} {
 			m[unhex(kv[0])] = buildHost(kv[1])
 		}
 		return m
+	case 'J': // J(k=v,...): a map[interface{}]interface{} holding the given string keys AND keys that are not strings
+		m := map[interface{}]interface{}{}
+		for _, p := range splitTop(s[2:len(s)-1], ',') {
+			kv := splitTop(p, '=')
+			m[unhex(kv[0])] = buildHost(kv[1])
+		}
+		m[1] = "one"
+		m[int64(7)] = "seven"
+		m[2.5] = 2
+		m[true] = false
+		m[[2]int{1, 2}] = "pair"
+		m[struct{ A int }{3}] = "struct"
+		return m
 	case 'O': // O<0|1>(k=v,...): maps that are not map[string]interface{}
 		parts := splitTop(s[3:len(s)-1], ',')
 		if s[1] == '0' {
